@@ -7,8 +7,11 @@
    Part B: the modelled view evaluator (C10/ViewEval.v: ExpressionContext + ExpressionEvaluator over
    exact rationals, sqrt symbolic): what months / total / cv / by compute, that nothing escapes it,
    and the membership theorems instantiated at it.
-   Where the faithful model (= the unchanged code) does not satisfy the full statement, the statement
-   is kept as a Definition, refuted by a witness, and the strongest guarded version is proved. *)
+   The three full statements that the pre-fix tree refuted (duplicate view names merged, by("day"|"week")
+   collapsed to month, mixed-case variable names unreachable) are theorems about the current tree:
+   c10_membership, c10_by_own_payments, c10_variable_lookup.  What remains of the old refutation is
+   c10_loop_needs_distinct_names: the loop ALONE still merges equal names — parse_sections' duplicate
+   check (ViewEval.parse_ok) is what rules them out. *)
 From Coq Require Import String List Bool ZArith QArith Permutation Sorted.
 From Tally Require Import Lib.Str C10.Model C10.Proofs C10.ViewEval C10.EvalProofs.
 Import ListNotations.
@@ -16,15 +19,17 @@ Open Scope Q_scope.
 
 (* ============================== Part A: any evaluator ======================================= *)
 
-(* full statement: in a completed run every view lists exactly the selected merchants *)
-Definition c10_membership_statement : Prop :=
+(* the loop on its own, for arbitrary view lists: in a completed run every view lists exactly the selected
+   merchants.  NOT a property of the loop alone (history: this is how the pre-fix tree failed) ... *)
+Definition c10_loop_membership_unguarded : Prop :=
   forall (M V : Type) (excl : M -> bool) (vname : V -> string) (gok : M -> bool) (ft : V -> M -> outcome)
          (vs : list V) (ms : list M) (r : list (string * list M)) (v : V),
     In v vs -> classify excl vname gok ft vs ms = Some r ->
     members r (vname v) = filter (selected excl ft v) ms.
 
-(* it fails when two views share a name: both feed the one list kept under that name *)
-Theorem c10_membership_refuted : ~ c10_membership_statement.
+(* ... two views that share a name feed the one list kept under that name; the guard NoDup (below) is
+   discharged for the tree by parse_sections rejecting duplicate names (c10_membership, Part B) *)
+Theorem c10_loop_needs_distinct_names : ~ c10_loop_membership_unguarded.
 Proof.
   intros H.
   specialize (H nat (string * bool)%type (fun _ => false) fst (fun _ => true)
@@ -32,7 +37,7 @@ Proof.
                 [("A"%string, true); ("A"%string, false)] [7%nat] [("A"%string, [7%nat])] ("A"%string, false)).
   simpl in H. specialize (H (or_intror (or_introl eq_refl)) eq_refl). discriminate.
 Qed.
-Print Assumptions c10_membership_refuted.
+Print Assumptions c10_loop_needs_distinct_names.
 
 (* with distinct view names it holds, as an equality of lists (each selected merchant once, in order) *)
 Theorem c10_membership_partial :
@@ -159,59 +164,52 @@ Theorem c10_by_spec :
 Proof. exact by_spec. Qed.
 Print Assumptions c10_by_spec.
 
-(* full statement: the by()-groupings a filter sees are those of the merchant's OWN payments *)
+(* full statement: everything a filter sees — payments, their dates, hence every by()-grouping incl.
+   by("day") and by("week") — is the merchant's OWN payments *)
 Definition c10_by_own_payments_statement : Prop :=
-  forall (pm py : Z) (m : merchant) (f : field), get_by (ctx_of pm py m) f = get_by (ctx_own pm py m) f.
-
-(* refuted: classify_by_sections rebuilds every date as the 15th of its month, so three payments on
-   three days of one month form ONE by("day") group (and one by("week") group) *)
-Theorem c10_by_own_payments_refuted : ~ c10_by_own_payments_statement.
-Proof.
-  intros H.
-  specialize (H 1%Z 1%Z {| m_name := "A"; m_category := "Food"; m_subcategory := ""; m_tags := [];
-                           m_payments := [ {| p_year := 2025; p_month := 1; p_day := 3; p_amount := 10 |};
-                                           {| p_year := 2025; p_month := 1; p_day := 10; p_amount := 20 |};
-                                           {| p_year := 2025; p_month := 1; p_day := 20; p_amount := 5 |} ] |} FDay).
-  vm_compute in H. discriminate.
-Qed.
-Print Assumptions c10_by_own_payments_refuted.
-
-Theorem c10_by_own_payments_partial :
   forall (pm py : Z) (m : merchant) (f : field),
-    f = FMonth \/ f = FYear -> get_by (ctx_of pm py m) f = get_by (ctx_own pm py m) f.
-Proof. exact by_month_year_own. Qed.
-Print Assumptions c10_by_own_payments_partial.
+    ctx_of pm py m = ctx_own pm py m /\ get_by (ctx_of pm py m) f = get_by (ctx_own pm py m) f.
 
-(* months, total and cv are those of the merchant's own payments *)
+Theorem c10_by_own_payments : c10_by_own_payments_statement.
+Proof. intros pm py m f. split; [apply ctx_of_own|now rewrite ctx_of_own]. Qed.
+Print Assumptions c10_by_own_payments.
+
+(* in particular three payments on three days of one month are three by("day") groups *)
+Example c10_by_day_example :
+  get_by (ctx_of 1 1 {| m_name := "A"; m_category := "Food"; m_subcategory := ""; m_tags := [];
+                        m_payments := [ {| p_year := 2025; p_month := 1; p_day := 3; p_amount := 10 |};
+                                        {| p_year := 2025; p_month := 1; p_day := 10; p_amount := 20 |};
+                                        {| p_year := 2025; p_month := 1; p_day := 20; p_amount := 5 |} ] |}) FDay
+  = VList [VList [VNum 10 true]; VList [VNum 20 true]; VList [VNum 5 true]].
+Proof. vm_compute. reflexivity. Qed.
+
 Theorem c10_months_total_cv_own :
   forall (pm py : Z) (m : merchant),
     get_months (ctx_of pm py m) = get_months (ctx_own pm py m) /\
     get_total (ctx_of pm py m) = get_total (ctx_own pm py m) /\
     get_cv (ctx_of pm py m) = get_cv (ctx_own pm py m).
-Proof. exact months_total_cv_own. Qed.
+Proof. intros pm py m. now rewrite ctx_of_own. Qed.
 Print Assumptions c10_months_total_cv_own.
 
-(* full statement: a name that was given a value evaluates to that value *)
+(* full statement: a variable defined in the views file (global or view-local, any letter case) has a
+   value once the definitions are evaluated, and every spelling of its name reads that value *)
 Definition c10_variable_lookup_statement : Prop :=
-  forall (vars : env) (c : ctx) (n : string) (v : value),
-    alookup n vars = Some v -> evaluate vars c (EName n) = Val v.
+  forall (raw : defs) (c : ctx) (start env : env) (n : string) (e : expr) (n' : string),
+    In (n, e) raw -> eval_vars (norm_defs raw) c start = Val env -> lower n' = lower n ->
+    exists v, alookup (lower n) env = Some v /\ evaluate env c (EName n') = Val v.
 
-(* refuted: names are lower-cased at use but stored as written, so `Big = ...` can never be read *)
-Theorem c10_variable_lookup_refuted : ~ c10_variable_lookup_statement.
-Proof.
-  intros H.
-  specialize (H [("Big"%string, VBool true)]
-                {| c_txns := []; c_category := ""; c_subcategory := ""; c_merchant := ""; c_tags := [];
-                   c_period_month := 1; c_period_year := 1 |} "Big"%string (VBool true) eq_refl).
-  vm_compute in H. discriminate.
-Qed.
-Print Assumptions c10_variable_lookup_refuted.
+Theorem c10_variable_lookup : c10_variable_lookup_statement.
+Proof. exact variable_reachable. Qed.
+Print Assumptions c10_variable_lookup.
 
-Theorem c10_variable_lookup_partial :
-  forall (vars : env) (c : ctx) (n : string) (v : value),
-    lower n = n -> alookup n vars = Some v -> evaluate vars c (EName n) = Val v.
-Proof. intros vars c n v L H. unfold evaluate. now rewrite (lookup_lowercase_var vars c n v L H). Qed.
-Print Assumptions c10_variable_lookup_partial.
+Example c10_variable_example :
+  option_map (fun env => evaluate env {| c_txns := []; c_category := ""; c_subcategory := ""; c_merchant := ""; c_tags := [];
+                                         c_period_month := 1; c_period_year := 1 |} (EName "BIG"))
+             (match eval_vars (norm_defs [("Big"%string, EConst (CBool true))])
+                              {| c_txns := []; c_category := ""; c_subcategory := ""; c_merchant := ""; c_tags := [];
+                                 c_period_month := 1; c_period_year := 1 |} [] with Val env => Some env | _ => None end)
+  = Some (Val (VBool true)).
+Proof. vm_compute. reflexivity. Qed.
 
 (* nothing but ExpressionError leaves the evaluator, so the modelled pipeline always completes:
    a filter (or variable) that cannot be evaluated never fails the run *)
@@ -236,6 +234,29 @@ Proof.
                         (g_views cfg) ms r v m ND HI H).
 Qed.
 Print Assumptions c10_model_membership_iff.
+
+(* FULL statement about the tree: for every views file parse_sections accepts, every view lists exactly
+   the non-excluded merchants of which its filter is true — once each, in merchant order — and its total
+   is the sum of their totals.  No guard on names is left: parse_sections rejects duplicates. *)
+Definition c10_membership_statement : Prop :=
+  forall (cfg : config) (ms : list merchant) (fbg : merchant -> bool) (fb : view -> merchant -> outcome)
+         (r : list (string * list merchant)) (v : view),
+    parse_ok cfg = true -> In v (g_views cfg) -> classify_by_sections cfg ms fbg fb = Some r ->
+    members r (v_name v) = filter (fun m => negb (excluded m) && is_true (model_filter_true cfg ms fb v m))%bool ms /\
+    view_total m_total r (v_name v) = sumQ (map m_total (members r (v_name v))).
+
+Theorem c10_membership : c10_membership_statement.
+Proof.
+  intros cfg ms fbg fb r v P HI H. split; [|reflexivity].
+  exact (membership_list excluded v_name (model_globals_ok cfg ms fbg) (model_filter_true cfg ms fb)
+                         (g_views cfg) ms r v (parse_ok_nodup cfg P) HI H).
+Qed.
+Print Assumptions c10_membership.
+
+Example c10_duplicate_names_rejected :
+  parse_ok {| g_vars := []; g_views := [ {| v_name := "X"; v_vars := []; v_filter := EConst (CBool true) |};
+                                         {| v_name := "X"; v_vars := []; v_filter := EConst (CBool false) |} ]%string |} = false.
+Proof. reflexivity. Qed.
 
 (* independence at the modelled pipeline, with no completion hypotheses left: two views files with the
    same global variables that both contain view v give v the same members *)
